@@ -12,6 +12,10 @@ CHECKS = {
     text="TLC enumerates every well-formed segment sequence of the MC_RoundTrip grammar (all segment kinds; key/term text over letters, digits and every escapable character), writes it with the specification's Write operator in both notations and both key styles, and checks the round-trip theorems (text->segments, canonical re-parse in either notation, fixed point, equality) on the mirrored parser and stringifier; each emitted case is replayed into the real YAMLPath where the same relations plus append/pop are evaluated on the real objects; seeded random longer sequences go through Batch_RoundTrip.",
     note="Trusted: TLC; Write as the reading of the documented notation; the segment projection of harness/pathobs.py. Bounds: quick = 2 segments (first over the full vocabulary of ~750 segments) + collector chains of 4 + 1500 random sequences of 2-6; thorough = 3 segments + 20000 random. Two input classes are known findings (F-C08-1, F-C08-2).",
     technique="TLA+ model of writer/parser/stringifier checked by TLC + S->C replay of relations on the real class", ref="4/C08"),
+ "C01": dict(
+    text="TLC (MC_Query) enumerates every document of the generator machine (maps, sequences, Arrays-of-Hashes, sets, scalars of every type, int/str keys, an anchored scalar with aliases) up to the node bound, derives each document's path vocabulary (key, index, slice, anchor, all nine search operators plain and inverted on '.', on attributes and on descendant paths, *, **; one- and two-segment paths), evaluates the declarative selection Sel of spec/YQuery.tla, checks its design theorems and emits the expected positions; every case is replayed into the real Processor (required query in both notations, exists, optional query when every branch exists) and compared by node identity and order.",
+    note="Trusted: TLC; Sel as the reading of README/CHANGES (Appendix A of DESIGN.md); concretise/abstract. Cases that touch a rule the documentation leaves open are tagged informational by the model and never alarm. Bounds: quick = documents of <= 4 nodes, ~6000 documents x ~85 paths (one- and two-segment, reduced vocabulary); thorough = <= 5 nodes with the full vocabulary.",
+    technique="TLA+ declarative semantics evaluated by TLC over an enumerated document x path space + S->C replay", ref="4/C01"),
 }
 NA_REASON = "check not built yet in this round (specification family under construction; see DESIGN.md section 9)"
 def main():
